@@ -6,6 +6,7 @@ mod core;
 mod digest;
 mod f64x;
 mod pools;
+mod primers;
 mod props;
 mod spell;
 mod tok;
